@@ -25,6 +25,7 @@ def run(ctx):
                          "scheduler validated by the Level-A monitors; distinct_nontrivial = executions (distinct seed / DFS tape each)")
     exe = build.harness("batch", ["batch.cc"], "shim")
     B.model_check_batch(ctx, ["NoOverlap", "BatchBound"], expect_violation_with_devs=["BatchBound"], live=False, with_devs=True)
+    B.model_vs_monitor(ctx)
     lines, abnormal = B.explore(ctx, exe, B.batch_runs(ctx, focus="C03"))
     B.validate(ctx, "C03", lines, "batch", devs=B.BATCH_DEVS)
     B.report_abnormal(ctx, abnormal, "batch", only_if=lambda ev: bool(ev) and isinstance(ev[-1], dict) and ev[-1].get("e") == "Crash")
